@@ -91,6 +91,7 @@ def step (st : St) (l : String) : St × Option String :=
     | _, _ => (st, some "nofile")
   | "case" :: _ => (st, some "ok")
   | ["reseal", _] => (st, some (if st.ix.isSome then "same" else "nofile"))
+  | ["cseal", _, _] => (st, some (if st.ix.isSome then "same" else "nofile"))   -- build_perm: the file is a function of the set of inserts
   | ["dump"] => (st, some (hex st.file.toList))
   | _ => (st, some "bad-op")
 
